@@ -31,18 +31,18 @@ ASSUMPTIONS = [
 NSHARDS = {"quick": 16, "thorough": 16}
 BUDGET_S = {"quick": 12, "thorough": 300}
 FLOORS = {
-    "quick": {"evaluations": 6000, "distinct": 1200,
-              "counters": {"render_checks": 6000, "extract_ast_checks": 6000,
-                           "extract_babel_checks": 6000, "plural_blocks": 1500,
-                           "count_arg_checks": 1500, "style:old": 2500, "style:new": 2500,
-                           "autoescape_on": 2500, "trimmed_effective": 1000, "ctx_blocks": 800,
-                           "pct_blocks": 1500, "exprcall_checks": 100}},
-    "thorough": {"evaluations": 150000, "distinct": 8000,
-                 "counters": {"render_checks": 150000, "extract_ast_checks": 150000,
-                              "extract_babel_checks": 150000, "plural_blocks": 40000,
-                              "count_arg_checks": 40000, "style:old": 60000, "style:new": 60000,
-                              "autoescape_on": 60000, "trimmed_effective": 25000,
-                              "ctx_blocks": 20000, "pct_blocks": 40000, "exprcall_checks": 100}},
+    "quick": {"evaluations": 4000, "distinct": 2500,
+              "counters": {"render_checks": 3500, "extract_ast_checks": 3500,
+                           "extract_babel_checks": 3500, "plural_blocks": 1200,
+                           "count_arg_checks": 1200, "style:old": 1500, "style:new": 1500,
+                           "autoescape_on": 1500, "trimmed_effective": 1200, "ctx_blocks": 1000,
+                           "pct_blocks": 1200, "exprcall_checks": 100}},
+    "thorough": {"evaluations": 100000, "distinct": 8000,
+                 "counters": {"render_checks": 90000, "extract_ast_checks": 90000,
+                              "extract_babel_checks": 90000, "plural_blocks": 30000,
+                              "count_arg_checks": 30000, "style:old": 40000, "style:new": 40000,
+                              "autoescape_on": 40000, "trimmed_effective": 20000,
+                              "ctx_blocks": 15000, "pct_blocks": 30000, "exprcall_checks": 100}},
 }
 
 NAMES = ["user", "count", "num", "n", "title", "who", "x"]
